@@ -50,7 +50,7 @@ def verus(unit_path, timeout=900, threads=16, multiple_errors=10, extra=None):
     except ValueError:
         raise Undecided('verus produced no JSON result (rc=%s): %s' % (rc, (err or out)[-600:]))
     res = js.get('verification-results', {})
-    failures, tool_errors = [], []
+    failures, tool_errors, rlimit_hits = [], [], []
     for line in err.split('\n'):
         line = line.strip()
         if not line.startswith('{'):
@@ -82,8 +82,14 @@ def verus(unit_path, timeout=900, threads=16, multiple_errors=10, extra=None):
                 'clauses': [{'label': s.get('label') or '', 'line': s['line_start'], 'text': norm(span_text(s))} for s in sec],
                 'rendered': d.get('rendered', ''),
             })
+        elif 'Resource limit (rlimit) exceeded' in msg and 'rlimit' not in IGNORE_MSGS:
+            # a function whose proof ran into the resource limit: undecided for THAT function; it must not hide
+            # named obligations that failed elsewhere in the unit (a failing variant often exhausts the limit somewhere)
+            rlimit_hits.append((d.get('rendered') or msg)[:300])
         else:
             tool_errors.append(msg.strip() + ' :: ' + (d.get('rendered') or '')[:400])
+    if rlimit_hits and not failures:
+        tool_errors.append('Resource limit (rlimit) exceeded :: ' + rlimit_hits[0])
     if res.get('encountered-vir-error') or tool_errors or (rc != 0 and not failures and res.get('errors', 0) == 0):
         raise Undecided('verus could not process the unit (unsupported construct / type error / rlimit): '
                         + ' | '.join(tool_errors)[:1500] + ((err[-400:]) if not tool_errors else ''))
@@ -96,7 +102,7 @@ def verus(unit_path, timeout=900, threads=16, multiple_errors=10, extra=None):
     except (KeyError, TypeError):
         pass
     return {'verified': res.get('verified', 0), 'errors': res.get('errors', 0), 'failures': failures,
-            'func_times': times, 'wall_s': wall, 'cmd': ' '.join(cmd),
+            'func_times': times, 'wall_s': wall, 'cmd': ' '.join(cmd), 'rlimit_exceeded': rlimit_hits,
             'smt_ms': js.get('times-ms', {}).get('smt', {}).get('total'),
             'total_ms': js.get('times-ms', {}).get('total')}
 
